@@ -166,6 +166,21 @@ def run_shard(ctx):
                             case["dropped_key_column"] = cl["cols"][-1]
                         check_case(ctx, case)
                     ctx.obs["enumerated_key_order_patterns"] += 1
+    # every ordered triple of ALTER kinds on one small table (the C04 history generator): whatever the order of ADD / RENAME / DROP / MODIFY /
+    # keys / foreign keys, every entry of "columns" stays a complete column record and the key lists name columns of the table
+    from vf.checks import c04
+    focus = ["add", "rename", "fk", "fk_n", "drop", "modify", "uniq1", "pk", "readd", "default"]
+    k = 0
+    for k1, k2, k3 in itertools.product(focus, focus, focus):
+        k += 1
+        if not ctx.mine(k):
+            continue
+        for rep in range(1 if not thorough else 3):
+            h = c04.gen_history(ctx.sub_rng("tri", k * 8 + rep), [(None, "t")], [(k1, 0), (k2, 0), (k3, 0)], styles="p", ncols=2 + (k + rep) % 2)
+            ddl = "\n".join(h["stmts"]) + "\n"
+            for mode in ("sql", MODES[k % len(MODES)]):
+                check_case(ctx, {"gen": "alter_triple", "ddl": ddl, "ctor": {}, "mode": mode, "group_by_type": bool(k % 2), "json_dump": False})
+            ctx.obs["alter_kind_triples"] += 1
     corp = [c for c in load_corpus() if c["ok"]]
     n = ctx.budget(96, len(corp) + ctx.nshards)
     for j in range(n):
